@@ -17,7 +17,7 @@ EXPLANATION = (
     "on free geometry arrays with an uninterpreted kernel and proved equal entry by entry (polynomial identities with UFs, cvc5/z3): regular "
     "skipping, singular pair filtering by support, offsets, multipliers and scatter must be mutually consistent for every geometry and kernel value."
 )
-ROUNDS = ((("cvc5", 10), ("z3", 10)), (("cvc5", 90), ("z3", 90)), (("cvc5", 300),))
+ROUNDS = ((("cvc5", 20), ("z3", 3)), (("cvc5", 120), ("z3", 60)), (("cvc5", 400),))
 
 OPS = {
     # name: (module, function, kernel base names to replace, UF normals, complex, wavenumber)
